@@ -586,14 +586,18 @@ def packed_set_add(F, rep, rule="C14.5"):
         # the private representation of DnaString is not the one the lemmas are written against: undecided here
         rep.inconclusive(rule, PS + "::add", "role discovery: %s" % e)
         return
-    for n0, m in ((0, 0), (0, 3), (5, 4), (31, 3), (32, 33)):
-        okey = "%s::add/len=%d/m=%d" % (PS, n0, m)
+    from .models import IterV
+    for n0, m, loose in ((0, 0, False), (0, 3, False), (5, 4, False), (31, 3, False), (32, 33, False), (5, 4, True), (0, 3, True)):
+        # loose: the bases arrive through an iterator whose size hint is legal but not exact (0, Some(m + 5)) — what a `filter` answers
+        okey = "%s::add/len=%d/m=%d%s" % (PS, n0, m, "/loose-size-hint" if loose else "")
 
-        def f(n0=n0, m=m, okey=okey):
+        def f(n0=n0, m=m, okey=okey, loose=loose):
             it = Interp(F, False, Harness())
             me = struct_of(F, PS, {"sequence": dt.sym("s", n0), "start": VecV([usize(77)]), "length": VecV([Int(32, False, val=77)])})
             cell = Cell(me, "self")
             items = VecV(lemmas.byte_seq("a", m))
+            if loose:
+                items = IterV("owned", (Ref(Cell(items, "lossy-source")), 0, m), frozenset(["loose-hint"]))
             it.call_body(body, [Ref(cell), items])
             names = [x["name"] for x in F.adts[PS]["variants"][0]["fields"]]
             st = cell.v
